@@ -79,6 +79,18 @@ fn corrupt(e: &Enc, cor: &str, enc: &str) -> Option<Enc> {
                 Enc::S(format!("{np}{}", &s[i..]))
             } else { return None }
         }
+        (Enc::S(s), "unknown_prefix_a") | (Enc::S(s), "unknown_prefix_b") | (Enc::S(s), "unknown_prefix_c") => {
+            if let Some(i) = s.find('/') {
+                let np = match cor { "unknown_prefix_a" => "rsa", "unknown_prefix_b" => "ed25519x", _ => "" };
+                // keep what precedes the algorithm name (e.g. "private-key-")? the forms are "<alg>/<hex>" and "<alg>-private/<hex>"
+                let p = &s[..i];
+                let np = if p.ends_with("-private") { format!("{np}-private") } else { np.to_string() };
+                Enc::S(format!("{np}{}", &s[i..]))
+            } else { return None }
+        }
+        (Enc::P(p), "unknown_prefix_a") => { let mut q = p.clone(); q.algorithm = 2; Enc::P(q) }
+        (Enc::P(p), "unknown_prefix_b") => { let mut q = p.clone(); q.algorithm = -1; Enc::P(q) }
+        (Enc::P(p), "unknown_prefix_c") => { let mut q = p.clone(); q.algorithm = 255; Enc::P(q) }
         (Enc::P(p), "wrong_prefix") => { let mut q = p.clone(); q.algorithm = 1 - q.algorithm; Enc::P(q) }
         (Enc::P(p), "truncate") => { let mut q = p.clone(); q.key.pop(); Enc::P(q) }
         (Enc::P(p), "extend") => { let mut q = p.clone(); q.key.push(0); Enc::P(q) }
